@@ -458,6 +458,38 @@ def rule_helpers(rep: Report, repo: Repo, sections=None, nonhermitian: bool = Tr
             conds = built[2][0][0]
             sel = conds[0] if len(conds) == 1 else ast.BoolOp(op=ast.And(), values=list(conds))
             sel = inline(sel, Scope(repo.trees["number_ordered_form"], ft))
+        # a predicate moved into a method / staticmethod of the class (`self._may_match(powers, c)`) is read from its definition:
+        # a single returned expression, or a loop with an early `return False` followed by `return True` (= all(not test ...))
+        cls_ = repo.find("number_ordered_form::NumberOrderedForm", R)
+
+        def predicate_expr(fn):
+            body = [b_ for b_ in fn.body if not (isinstance(b_, ast.Expr) and isinstance(b_.value, ast.Constant))]
+            if len(body) == 1 and isinstance(body[0], ast.Return) and body[0].value is not None:
+                return body[0].value
+            if len(body) == 2 and isinstance(body[0], ast.For) and not body[0].orelse and len(body[0].body) == 1 and isinstance(body[0].body[0], ast.If) \
+                    and not body[0].body[0].orelse and len(body[0].body[0].body) == 1 and isinstance(body[0].body[0].body[0], ast.Return) \
+                    and norm(body[0].body[0].body[0].value) == "False" and isinstance(body[1], ast.Return) and norm(body[1].value) == "True":
+                lp = body[0]
+                return ast.Call(func=ast.Name(id="all", ctx=ast.Load()), keywords=[], args=[ast.GeneratorExp(
+                    elt=ast.UnaryOp(op=ast.Not(), operand=lp.body[0].test),
+                    generators=[ast.comprehension(target=lp.target, iter=lp.iter, ifs=[], is_async=0)])])
+            return None
+
+        class _Methods(ast.NodeTransformer):
+            def visit_Call(self, node):
+                self.generic_visit(node)
+                if isinstance(node.func, ast.Attribute) and isinstance(node.func.value, ast.Name) and node.func.value.id in ("self", "NumberOrderedForm", "cls") \
+                        and not node.keywords:
+                    fns = [m_ for m_ in cls_.body if isinstance(m_, ast.FunctionDef) and m_.name == node.func.attr]
+                    if len(fns) == 1:
+                        params = [a_.arg for a_ in fns[0].args.args if a_.arg not in ("self", "cls")]
+                        ex = predicate_expr(fns[0])
+                        if ex is not None and len(params) == len(node.args):
+                            from .resolve import resolved as _rs
+                            return _rs(ex, dict(zip(params, node.args)))
+                return node
+        from .resolve import clone as _clone11
+        sel = canon(_Methods().visit(_clone11(sel)))
         MATCH = (f"any((all(((_v0 - _v1).is_zero is not False for _v0, _v1 in zip({pw}, _v2))) for _v2 in conditions))",
                  f"any((all(((_v1 - _v2).is_zero is not False for _v1, _v2 in zip({pw}, _v0))) for _v0 in conditions))")
 
